@@ -1,6 +1,7 @@
 package c03w
 
 import (
+	"strings"
 	"context"
 	"fmt"
 	"testing"
@@ -28,16 +29,21 @@ type step struct {
 	Topic   string
 	Pos2    int
 	Resync  bool // the call asks for a re-sync (WithAdsResync): a rejected head must still fail it
+	NilAddr int  // 1 / 2: the caller's address list also holds a nil entry, first / last (the library cleans such lists)
 }
 
 type Case struct {
 	N         int
 	Discovery bool
+	PubKey    int // key of the publisher: 0 ed25519, -1 the RSA-4096 key, -2 the last key of the pool (RSA-2048)
 	Steps     []step
 }
 
+var longTopic = strings.Repeat("/indexer/ingest/a-rather-long-network-name", 8)
+
 func genCase(t *rapid.T) Case {
 	c := Case{N: rapid.IntRange(2, 5).Draw(t, "n"), Discovery: rapid.Bool().Draw(t, "discovery")}
+	c.PubKey = rapid.SampledFrom([]int{0, 0, 0, -1, -2}).Draw(t, "pubkey")
 	ns := rapid.IntRange(1, 4).Draw(t, "nsteps")
 	for i := 0; i < ns; i++ {
 		s := step{Kind: rapid.SampledFrom([]string{"honest", "valid", "valid", "foreign", "cidswap", "cidswap", "topicswap", "sigflip", "keyswap", "emptypeer", "foreignaddr", "foreignaddr", "honestforeignaddr"}).Draw(t, "kind")}
@@ -46,9 +52,10 @@ func genCase(t *rapid.T) Case {
 			s.Pos = c.Steps[rapid.IntRange(0, i-1).Draw(t, "reuseof")].Pos
 		}
 		s.SwapPos = rapid.IntRange(0, c.N-1).Draw(t, "swappos")
-		s.Signer = rapid.IntRange(1, len(gen.Keys())-1).Draw(t, "signer")
-		s.Topic = rapid.SampledFrom([]string{"", "", "/indexer/ingest/mainnet", "t"}).Draw(t, "topic")
+		s.Signer = rapid.IntRange(1, len(gen.Keys())-2).Draw(t, "signer")
+		s.Topic = rapid.SampledFrom([]string{"", "", "/indexer/ingest/mainnet", "t", longTopic}).Draw(t, "topic")
 		s.Resync = rapid.IntRange(0, 3).Draw(t, "resync") == 0
+		s.NilAddr = rapid.SampledFrom([]int{0, 0, 0, 1, 2}).Draw(t, "niladdr")
 		c.Steps = append(c.Steps, s)
 	}
 	return c
@@ -65,7 +72,11 @@ func runCase(t *testing.T) func(Case) pbt.Result {
 		synctest.Test(t, func(t *testing.T) {
 			w := world.New()
 			defer w.Close()
-			p := w.AddPublisher(0, c.Discovery, "")
+			ki := c.PubKey
+			if ki == -2 {
+				ki = len(gen.Keys()) - 1
+			}
+			p := w.AddPublisher(ki, c.Discovery, "")
 			p.ExtendAds(c.N)
 			s, err := world.NewSub(w, false)
 			if err != nil {
@@ -146,6 +157,14 @@ func runCase(t *testing.T) func(Case) pbt.Result {
 						info.Addrs[i] = multiaddr.Join(a, suffix)
 					}
 				}
+				if st.Kind != "emptypeer" {
+					switch st.NilAddr {
+					case 1:
+						info.Addrs = append([]multiaddr.Multiaddr{nil}, info.Addrs...)
+					case 2:
+						info.Addrs = append(info.Addrs[:len(info.Addrs):len(info.Addrs)], nil)
+					}
+				}
 				foreignLatest0 := s.Latest(foreignID)
 				latest0, ev0, req0, hk0 := s.Latest(p.ID), s.NEvents(), len(w.Requests()), s.NHooks()
 				var so []dagsync.SyncOption
@@ -205,6 +224,6 @@ func runCase(t *testing.T) func(Case) pbt.Result {
 
 func TestC03_Subscriber(t *testing.T) {
 	pbt.Run(t, pbt.Config{Prop: "C03", Unit: "TestC03_Subscriber", TrackCurrent: true,
-		Rule: "one real subscriber and one publisher (plain or discovery transport), 1..4 consecutive SyncAdChain calls on the same handler/syncer, each against a drawn head response: the publisher's honest head, a valid head for any chain position, a head validly signed by another identity, a valid head with the CID replaced (signature kept; often the very head a previous step accepted), topic changed, signature bit flipped, key or signature swapped with a foreign signer's, a call with an empty peer ID, or a call that names the publisher but whose addresses carry another identity's /p2p component (with a head signed by that identity: must be rejected and leave that identity's latest-sync alone; with the publisher's own head: accepted); oracle: accepted iff valid and signed by the synced publisher (returns that CID, latest-sync = CID); otherwise error, no block request after the head request, latest-sync / events / hooks unchanged; empty peer ID rejected before any request. Non-trivial: a step that must be rejected; distinct by case.",
+		Rule: "one real subscriber and one publisher (ed25519, RSA-2048 or RSA-4096 identity; topics from none to 330 characters, so encoded heads of 300..2500 bytes; plain or discovery transport), 1..4 consecutive SyncAdChain calls on the same handler/syncer, each against a drawn head response: the publisher's honest head, a valid head for any chain position, a head validly signed by another identity, a valid head with the CID replaced (signature kept; often the very head a previous step accepted), topic changed, signature bit flipped, key or signature swapped with a foreign signer's, a call with an empty peer ID, or a call that names the publisher but whose addresses carry another identity's /p2p component (with a head signed by that identity: must be rejected and leave that identity's latest-sync alone; with the publisher's own head: accepted); any call's address list may also hold a nil entry; oracle: accepted iff valid and signed by the synced publisher (returns that CID, latest-sync = CID); otherwise error, no block request after the head request, latest-sync / events / hooks unchanged; empty peer ID rejected before any request. Non-trivial: a step that must be rejected; distinct by case.",
 	}, genCase, runCase(t))
 }
